@@ -175,6 +175,8 @@ type FX struct {
 	invAssumed map[string]bool
 	invBroken map[string]bool
 	invObjs [][2]string
+	inLoopBlock bool // the block being executed lies inside a loop (of this function or of an inlining caller)
+	invStoreReach map[string]Term // reach conditions of the stores that may have broken an object's invariant
 }
 
 type frame struct {
@@ -596,6 +598,10 @@ func (fx *FX) runBody(fr *frame, entry *State) []exitPoint {
 	}
 	loops, back := findLoops(fn)
 	order := topoOrder(fn, back)
+	// inlined into a block that lies in a loop of the caller: everything here is "in a loop"
+	enteredInLoop := fx.inLoopBlock
+	loopBase := enteredInLoop && len(fx.inlineStack) > 0
+	defer func() { fx.inLoopBlock = enteredInLoop }()
 	edgeOut := map[[2]int]*State{} // state along edge pred->succ
 	var exits []exitPoint
 	fr.loopOrd = map[*ssa.BasicBlock]int{}
@@ -630,6 +636,13 @@ func (fx *FX) runBody(fr *frame, entry *State) []exitPoint {
 		}
 		// execute instructions
 		alive := true
+		inLoop := false
+		for _, li := range loops {
+			if li.blocks[b] {
+				inLoop = true
+			}
+		}
+		fx.inLoopBlock = inLoop || loopBase
 		for _, ins := range b.Instrs {
 			if _, isPhi := ins.(*ssa.Phi); isPhi {
 				continue
